@@ -13,25 +13,28 @@
 (* bound; 0 = configuration field left at its zero value).  Suites:                   *)
 (*   EG ECDHE-RSA-AES128-GCM-SHA256   EC ECDHE-RSA-AES128-CBC-SHA                     *)
 (*   RC RSA-AES128-CBC-SHA            R3 RSA-3DES-EDE-CBC-SHA                         *)
-(*   XG ECDHE-ECDSA-AES128-GCM-SHA256                                                 *)
+(*   XG ECDHE-ECDSA-AES128-GCM-SHA256 CH ECDHE-RSA-CHACHA20-POLY1305 (enabled only    *)
+(*      for connections whose rule says chacha)                                       *)
 (* cl = [kind, min, max, suites (sequence, as sent), scsv, ecc, alpn (sequence), sni] *)
 (*   ecc: "ok"      supported_curves with a curve the server has + uncompressed points *)
 (*        "none"    neither ECC extension (RFC 4492 s.4: server may pick any curve)    *)
 (*        "foreign" supported_curves without any curve the server has                  *)
 (* sv = [min, max, suites (sequence; <<>> = nil = package default), prefer, np,       *)
-(*       rule [on, sni, grade, np], cert]                                              *)
+(*       rule [on, sni, grade, np, clientauth, chacha], cert]                          *)
+(*   rule = bfe_tls.Rule returned by Config.ServerRule for connections with that SNI  *)
+(*   (grade, NextProtos, ClientAuth, Chacha20); clientauth matters to Ticket.tla only *)
 EXTENDS Integers, Sequences, FiniteSets, TLC
 
 SSL3 == 3
 Versions == {10, 11, 12}
-AllSuites == {"EG", "EC", "RC", "R3", "XG"}
+AllSuites == {"EG", "EC", "RC", "R3", "XG", "CH"}
 Protos == {"h2", "http/1.1", "spdy/3.1"}
 Grades == {"A+", "A", "B", "C"}
 
-IsECDHE(s) == s \in {"EG", "EC", "XG"}
-TLS12Only(s) == s \in {"EG", "XG"}
+IsECDHE(s) == s \in {"EG", "EC", "XG", "CH"}
+TLS12Only(s) == s \in {"EG", "XG", "CH"}
 AuthOf(s) == IF s = "XG" THEN "ecdsa" ELSE "rsa"
-H2Suite(s) == s \in {"EG", "XG"}          \* not on the RFC 7540 Appendix A black list
+H2Suite(s) == s \in {"EG", "XG", "CH"}          \* not on the RFC 7540 Appendix A black list
 
 Range(f) == {f[i] : i \in DOMAIN f}
 MaxOf(S) == CHOOSE x \in S : \A y \in S : y <= x
@@ -50,7 +53,7 @@ GradeMin(g) == CASE g = "A+" -> 12 [] g = "A" -> 10 [] OTHER -> SSL3
 \* versions the server enables for this connection (configured range /\ rule grade)
 Enabled(cl, sv) == {v \in Versions : SMinCfg(sv) <= v /\ v <= SMax(sv) /\ GradeMin(Grade(cl, sv)) <= v}
 ClientVers(cl) == {v \in Versions : cl.min <= v /\ v <= cl.max}
-PkgSuiteOrder == <<"EG", "XG", "EC", "RC", "R3">>       \* order of bfe_tls.cipherSuites (Layer M)
+PkgSuiteOrder == <<"CH", "EG", "XG", "EC", "RC", "R3">>       \* order of bfe_tls.cipherSuites (Layer M)
 ServerSuites(sv) == IF sv.suites = <<>> THEN PkgSuiteOrder ELSE sv.suites
 ServerProtos(cl, sv) == IF RuleOn(cl, sv) THEN sv.rule.np ELSE sv.np
 
@@ -61,6 +64,7 @@ Usable(s, cl, sv, v) == /\ s \in Range(cl.suites)
                         /\ s \in Range(ServerSuites(sv))
                         /\ AuthOf(s) = sv.cert
                         /\ (TLS12Only(s) => v = 12)
+                        /\ (s = "CH" => (RuleOn(cl, sv) /\ sv.rule.chacha))     \* Rule.Chacha20
 \* suites that can certainly be used / that may be used (ECDHE towards a client without ECC extensions)
 Certain(cl, sv, v) == {s \in AllSuites : Usable(s, cl, sv, v) /\ (IsECDHE(s) => cl.ecc = "ok")}
 Possible(cl, sv, v) == {s \in AllSuites : Usable(s, cl, sv, v) /\ (IsECDHE(s) => cl.ecc \in {"ok", "none"})}
@@ -128,6 +132,7 @@ PSane(cl, sv) ==
     /\ p.suites # {}
     /\ p.suites \subseteq (Range(cl.suites) \cap Range(ServerSuites(sv)))
     /\ \A s \in p.suites : AuthOf(s) = sv.cert /\ (TLS12Only(s) => p.vers = 12)
+    /\ ("CH" \in p.suites => RuleOn(cl, sv) /\ sv.rule.chacha)
     /\ (p.alpn \ {""}) \subseteq (Range(cl.alpn) \cap Range(ServerProtos(cl, sv)))
     /\ ("h2" \in p.alpn => p.vers = 12)
     /\ (cl.alpn = <<>> => p.alpn = {""})
@@ -142,7 +147,7 @@ Total(cl, sv) ==
   /\ ~m.done => m.alert \in {"protocol_version", "handshake_failure", "inappropriate_fallback"}
 
 \* ------------------------------------------------------------------ the documents' own examples
-NoRule == [on |-> FALSE, sni |-> "", grade |-> "C", np |-> <<>>]
+NoRule == [on |-> FALSE, sni |-> "", grade |-> "C", np |-> <<>>, clientauth |-> FALSE, chacha |-> FALSE]
 DefSv == [min |-> 0, max |-> 0, suites |-> <<>>, prefer |-> TRUE, np |-> <<"h2", "http/1.1">>, rule |-> NoRule, cert |-> "rsa"]
 DefCl == [kind |-> "raw", min |-> 10, max |-> 12, suites |-> <<"EG", "EC", "RC">>, scsv |-> FALSE, ecc |-> "ok",
           alpn |-> <<"h2", "http/1.1">>, sni |-> "a"]
